@@ -88,7 +88,7 @@ class Unit:
     def __lt__(self, other: 'Unit'):
         if self.segment == other.segment:
             if self.annotation is None:
-                return True
+                return other.annotation is not None
             elif other.annotation is None:
                 return False
             else:
